@@ -240,6 +240,62 @@ class Catalogue:
         ln = getattr(node, "lineno", None) or getattr(self.cur, "lineno", "?")
         raise AnalysisError(f"{self.file}:{ln}: {what}")
 
+    # ------------------------------------------------------------ helper modules of the package
+    _SKIP_MODULES = ("quantity", "quantity.predefined", "quantity.si_prefixes", "quantity.money", "quantity.term",
+                     "quantity.registry", "quantity.converter", "quantity.cwdmeta", "quantity.exceptions")
+
+    def _import_from_package(self, module, env):
+        """Names a catalogue module imports from *other, small* modules of the package (helpers split off by a
+        refactoring) are bound by evaluating the definitions of exactly those names in a scope of the helper module."""
+        for name, (mod, nm) in getattr(module, "imports", {}).items():
+            if nm is None or name in env or mod not in self.prog.modules or mod in self._SKIP_MODULES:
+                continue
+            v = self._module_name(mod, nm)
+            if v is not None:
+                env[name] = v
+
+    def _module_name(self, mod, nm, _depth=0):
+        cache = self.__dict__.setdefault("_helper_envs", {})
+        m = self.prog.modules[mod]
+        henv = cache.get(mod)
+        if henv is None:
+            henv = cache[mod] = {}
+            for iname, (imod, inm) in m.imports.items():
+                if inm in _BUILTINS or iname in _BUILTINS:
+                    henv[iname] = CBuiltin(inm if inm in _BUILTINS else iname)
+                elif inm == "ONE":
+                    henv[iname] = Fraction(1)
+        if nm in henv:
+            return henv[nm]
+        if _depth > 4:
+            return None
+        for st in m.tree.body:
+            if isinstance(st, ast.FunctionDef) and st.name == nm:
+                henv[nm] = CFunc(st, henv, nm)
+                # the helper may use other names of its module: bind those it mentions
+                for n in ast.walk(st):
+                    if isinstance(n, ast.Name) and n.id not in henv and n.id != nm and \
+                            (n.id in m.functions or n.id in m.globals):
+                        self._module_name(mod, n.id, _depth + 1)
+                return henv[nm]
+            tgt = None
+            if isinstance(st, ast.Assign) and len(st.targets) == 1 and isinstance(st.targets[0], ast.Name):
+                tgt = st.targets[0].id
+            elif isinstance(st, ast.AnnAssign) and isinstance(st.target, ast.Name) and st.value is not None:
+                tgt = st.target.id
+            if tgt == nm:
+                saved = self.file
+                self.file = m.rel() if hasattr(m, "rel") else mod
+                try:
+                    self._exec(st, henv, top=False)
+                finally:
+                    self.file = saved
+                return henv.get(nm)
+        # re-exported from a further module
+        if nm in m.imports and m.imports[nm][0] in self.prog.modules and m.imports[nm][0] not in self._SKIP_MODULES:
+            return self._module_name(m.imports[nm][0], m.imports[nm][1], _depth + 1)
+        return None
+
     # ------------------------------------------------------------ prefixes
     def _eval_prefixes(self):
         m = self.prog.modules.get("quantity.si_prefixes")
@@ -248,6 +304,7 @@ class Catalogue:
         self.file = "si_prefixes.py"
         env: Dict[str, object] = {}
         self.prefix_class = None
+        self._import_from_package(m, env)
         for st in m.tree.body:
             self.cur = st
             if isinstance(st, (ast.Import, ast.ImportFrom)):
@@ -314,6 +371,7 @@ class Catalogue:
                 self.env[name] = self.prefixes[nm]
             elif nm in _BUILTINS or name in _BUILTINS:
                 self.env[name] = CBuiltin(nm if nm in _BUILTINS else name)
+        self._import_from_package(m, self.env)
         for st in m.tree.body:
             self.statements += 1
             self.cur = st
